@@ -235,3 +235,6 @@ func ExportJSON(v cadence.Value) string {
 	}
 	return string(b)
 }
+
+// HasPeephole reports whether the verif hook is compiled in.
+func HasPeephole() bool { return peepholeEnv != nil }
